@@ -32,9 +32,11 @@ class BaseSerialGateway(Gateway):
 class SerialGateway(BaseSyncGateway, BaseSerialGateway):
     """MySensors serial gateway."""
 
-    def __init__(self, *args, **kwargs):
+    def __init__(self, *args, timeout=1.0, reconnect_timeout=10.0, **kwargs):
         """Set up serial gateway."""
-        transport = SyncTransport(self, sync_connect, **kwargs)
+        transport = SyncTransport(
+            self, sync_connect, timeout=timeout, reconnect_timeout=reconnect_timeout
+        )
         super().__init__(transport, *args, **kwargs)
 
     def get_gateway_id(self):
@@ -75,9 +77,11 @@ def sync_connect(transport):
 class AsyncSerialGateway(BaseAsyncGateway, BaseSerialGateway):
     """MySensors async serial gateway."""
 
-    def __init__(self, *args, **kwargs):
+    def __init__(self, *args, timeout=1.0, reconnect_timeout=10.0, **kwargs):
         """Set up serial gateway."""
-        transport = AsyncTransport(self, async_connect, **kwargs)
+        transport = AsyncTransport(
+            self, async_connect, timeout=timeout, reconnect_timeout=reconnect_timeout
+        )
         super().__init__(transport, *args, **kwargs)
 
     async def get_gateway_id(self):
